@@ -591,6 +591,95 @@ example :
             .updateInitialState 5 4 6 0 0 2, .translateRotate 6, .qHist]).1.getLast?
       = some (.hist [⟨3, [6]⟩, ⟨4, [6]⟩] [8, 9] [0, 0] [0, 0]) := by decide
 
+/-! ### (e') `update_initial_state` calls REJECTED by a validating setter, and what follows them -/
+
+/-- A rejected call (first invalid argument number `k`, positive bound, dynamic obstacle) answers AssertionError and leaves:
+    ALL FOUR lists one entry longer, the new entries being the four values that were current TOGETHER when the call began (so
+    entry `i` of every list belongs to the same moment); the first `k` current values replaced, the others and the prediction as
+    they were; nothing cut. -/
+theorem C11_rejected_update_step (o : Obs) (hd : o.dynamic = true) (k v : Nat) (t0 : Int) (sig cen : Nat) (m : Int) (hm : 0 < m) :
+    let r := o.rejectedUpdate k v t0 sig cen m
+    r.1 = .err .assert ∧ r.2.hist = o.hist ++ [⟨o.init, []⟩] ∧ r.2.sigHist = o.sigHist ++ [o.sig] ∧
+    r.2.cenHist = o.cenHist ++ [o.cen] ∧ r.2.shpHist = o.shpHist ++ [o.shp] ∧
+    r.2.init = (if 1 ≤ k then v else o.init) ∧ r.2.sig = (if 2 ≤ k then sig else o.sig) ∧
+    r.2.cen = (if 3 ≤ k then cen else o.cen) ∧ r.2.shp = o.shp ∧ r.2.pred = o.pred := by
+  have hm' : ¬ m ≤ 0 := by omega
+  by_cases h1 : 1 ≤ k <;> simp [Obs.rejectedUpdate, hd, hm', h1, Obs.step, Obs.pushHist]
+
+/-- A rejected call on a static obstacle or with a non-positive bound changes nothing. -/
+theorem C11_rejected_update_unchanged (o : Obs) (k v : Nat) (t0 : Int) (sig cen : Nat) (m : Int)
+    (h : o.dynamic = false ∨ m ≤ 0) : (o.rejectedUpdate k v t0 sig cen m).2 = o := by
+  rcases h with h | h
+  · simp [Obs.rejectedUpdate, h]
+  · cases hd : o.dynamic <;> simp [Obs.rejectedUpdate, hd, h]
+
+/-- Equal length of the four lists is an invariant of rejected calls too … -/
+theorem C11_history_equal_length_stepX {o : Obs} (he : o.EqLen) (op : ObsOpX) : (o.stepX op).2.EqLen := by
+  cases op with
+  | plain op => exact C11_history_equal_length_step he op
+  | updateRejected k v t0 sig cen m =>
+    obtain ⟨e1, e2, e3⟩ := he
+    simp only [Obs.stepX, Obs.rejectedUpdate]
+    (repeat' split) <;> simp_all [Obs.EqLen, Obs.step, Obs.pushHist]
+
+/-- … hence of every history in which accepted and rejected calls, motions, setters and queries are mixed. -/
+theorem C11_history_equal_length_X : ∀ (ops : List ObsOpX) {o : Obs}, o.EqLen → (o.runX ops).2.EqLen
+  | [], _, h => h
+  | op :: ops, o, h => by
+    have := C11_history_equal_length_X ops (C11_history_equal_length_stepX h op)
+    simpa [Obs.runX] using this
+
+/-- The accepted call that follows a rejected one restores the bound: the lists are the last `m'` of (the lists before the rejected
+    call ++ the values current at the rejected call ++ the values current at the accepted call), still in step. -/
+theorem C11_rejected_then_accepted (o : Obs) (hd : o.dynamic = true) (he : o.EqLen) (k v : Nat) (t0 : Int) (sig cen : Nat) (m : Int)
+    (hm : 0 < m) (v' : Nat) (t0' : Int) (sig' cen' shp' : Nat) (m' : Int) (hm' : 0 < m') :
+    let o1 := (o.rejectedUpdate k v t0 sig cen m).2
+    let r := o1.step (.updateInitialState v' t0' sig' cen' shp' m')
+    r.2.hist = lastN m'.toNat (o.hist ++ [⟨o.init, []⟩] ++ [⟨o1.init, []⟩]) ∧
+    r.2.sigHist = lastN m'.toNat (o.sigHist ++ [o.sig] ++ [o1.sig]) ∧
+    r.2.cenHist = lastN m'.toNat (o.cenHist ++ [o.cen] ++ [o1.cen]) ∧
+    r.2.shpHist = lastN m'.toNat (o.shpHist ++ [o.shp] ++ [o.shp]) ∧ r.2.hist.length ≤ m'.toNat ∧ r.2.EqLen := by
+  have hr := C11_rejected_update_step o hd k v t0 sig cen m hm
+  have he1 : (o.rejectedUpdate k v t0 sig cen m).2.EqLen :=
+    C11_history_equal_length_stepX (o := o) he (.updateRejected k v t0 sig cen m)
+  have hd1 : (o.rejectedUpdate k v t0 sig cen m).2.dynamic = true := by
+    have hm0 : ¬ m ≤ 0 := by omega
+    by_cases h1 : 1 ≤ k <;> simp [Obs.rejectedUpdate, hd, hm0, h1, Obs.step, Obs.pushHist]
+  have hs := C11_history_step _ hd1 he1 v' t0' sig' cen' shp' m' hm'
+  simp only at hr hs ⊢
+  obtain ⟨_, g1, g2, g3, g4, _, _, _, g5, _⟩ := hr
+  refine ⟨?_, ?_, ?_, ?_, hs.2.2.2.2.2.2.2.2, C11_history_equal_length_step he1 _⟩
+  · rw [hs.2.1, g1]
+  · rw [hs.2.2.1, g2]
+  · rw [hs.2.2.2.1, g3]
+  · rw [hs.2.2.2.2.1, g4, g5]
+
+/-- Rejected calls keep every cache fresh (the setters that were reached recompute `_initial_occupancy_shape`). -/
+theorem C11_obs_fresh_stepX {o : Obs} (h : o.Fresh) (op : ObsOpX) (hwf : match op with | .plain p => p.WF | _ => True) :
+    (o.stepX op).2.Fresh := by
+  cases op with
+  | plain op => exact C11_obs_fresh_step h op hwf
+  | updateRejected k v t0 sig cen m =>
+    have hp : o.pushHist.Fresh := h
+    simp only [Obs.stepX, Obs.rejectedUpdate]
+    split
+    · exact h
+    · split
+      · exact h
+      · split
+        · exact C11_obs_fresh_step (C11_obs_fresh_step hp (.setInitialState v t0) trivial) _ trivial
+        · exact C11_obs_fresh_step hp _ trivial
+
+/-- Non-vacuity and the shape of the lists: bound 2, an accepted call, a call rejected at the shape ids (k = 3), an accepted call —
+    the lists stay in step (entry i of each list from the same moment: 1/7/5/0 and 2/8/6/0). -/
+example :
+    let o : Obs := { dynamic := true, shape := 0, init := 0, t0 := 0, initOcc := some (0, 0), pred := none, sig := 0, cen := 0,
+                     shp := 0, hist := [], sigHist := [], cenHist := [], shpHist := [] }
+    (o.runX [.plain (.updateInitialState 1 1 7 5 0 2), .updateRejected 3 2 2 8 6 2, .plain .qHist,
+             .plain (.updateInitialState 3 3 9 4 4 2), .plain .qHist]).1
+      = [.unit, .err .assert, .hist [⟨0, []⟩, ⟨1, []⟩] [0, 7] [0, 5] [0, 0], .unit, .hist [⟨1, []⟩, ⟨2, []⟩] [7, 8] [5, 6] [0, 0]] := by
+  decide
+
 /-! ## (f) lanelets and the lanelet network (token model) -/
 
 /-- `_polygon` is built from the current vertices; `_distance` / `_inner_distance` are empty or computed from the
